@@ -279,6 +279,18 @@ type c10msg struct {
 	id int
 	q  *quickfix.Message
 	m  *mMsg
+	// parsed: q came out of ParseMessage. String() of such an object is the text it was parsed
+	// from; what it holds now is serialised by copying it into a fresh message (or by sending it)
+	parsed bool
+}
+
+func (cm *c10msg) str() string {
+	if !cm.parsed {
+		return cm.q.String()
+	}
+	tmp := quickfix.NewMessage()
+	cm.q.CopyInto(tmp)
+	return tmp.String()
 }
 
 func (cm *c10msg) section(i int) (*quickfix.FieldMap, mSection) {
@@ -314,8 +326,8 @@ func setVia(t *rapid.T, fm *quickfix.FieldMap, tag int, v []byte) string {
 // verifyBuilt checks the serialisation of cm against its model.
 func verifyBuilt(t vk.TB, cm *c10msg, feat map[string]bool) {
 	c := c10()
-	out := []byte(cm.q.String())
-	again := []byte(cm.q.String())
+	out := []byte(cm.str())
+	again := []byte(cm.str())
 	if !bytes.Equal(out, again) {
 		vk.Violation(t, c, "C10/build/not-idempotent", "two builds differ:\n%s\n%s", vk.Show(out), vk.Show(again))
 	}
@@ -479,7 +491,7 @@ func c10Property(t *rapid.T) {
 	nOps := rapid.IntRange(1, 40).Draw(t, "nops")
 	for op := 0; op < nOps; op++ {
 		cm := msgs[rapid.IntRange(0, len(msgs)-1).Draw(t, "msg")]
-		kind := rapid.SampledFrom([]string{"set", "set", "set", "set", "setint", "setbool", "remove", "remove", "clear", "group", "group", "copy", "build"}).Draw(t, "op")
+		kind := rapid.SampledFrom([]string{"set", "set", "set", "set", "setint", "setbool", "remove", "remove", "clear", "group", "group", "copy", "build", "reparse"}).Draw(t, "op")
 		si := rapid.SampledFrom([]int{0, 1, 1, 1, 2}).Draw(t, "section")
 		fm, sec := cm.section(si)
 		pickTag := func() int {
@@ -600,9 +612,22 @@ func c10Property(t *rapid.T) {
 				existing = append(existing, k)
 			}
 			sort.Ints(existing)
+			var scalarTags []int
+			for k, it := range sec {
+				if it.grp == nil && templates[k] == nil {
+					scalarTags = append(scalarTags, k)
+				}
+			}
+			sort.Ints(scalarTags)
 			if len(existing) > 0 && rapid.Bool().Draw(t, "regroup") {
 				tag = rapid.SampledFrom(existing).Draw(t, "gtag")
 				tm = templates[tag]
+			} else if len(scalarTags) > 0 && rapid.IntRange(0, 3).Draw(t, "group-over-a-scalar") == 0 {
+				// a tag that holds a plain value so far becomes a group's count field
+				tag = rapid.SampledFrom(scalarTags).Draw(t, "stag")
+				tm = genTemplate(t, 1, &nextGroupTag)
+				templates[tag] = tm
+				feat["group-set-over-a-scalar"] = true
 			} else {
 				tag = nextGroupTag
 				nextGroupTag++
@@ -617,6 +642,29 @@ func c10Property(t *rapid.T) {
 			sec[tag] = &mItem{grp: g}
 			feat["group"] = true
 			trace = append(trace, fmt.Sprintf("m%d.body.SetGroup(%v)", cm.id, g.flatten()))
+		case "reparse":
+			// the message goes through the wire and the application goes on working with the parsed
+			// object (amending an order it received): later calls act on parsed storage
+			hasGroup := false
+			for _, secm := range []mSection{cm.m.h, cm.m.b, cm.m.t} {
+				for _, it := range secm {
+					if it.grp != nil {
+						hasGroup = true
+					}
+				}
+			}
+			if hasGroup {
+				continue // (without a dictionary a parsed group is not a group any more)
+			}
+			ensureHead(cm)
+			raw := []byte(cm.str())
+			parsed := quickfix.NewMessage()
+			if err := quickfix.ParseMessage(parsed, bytes.NewBuffer(raw)); err != nil {
+				vk.Violation(t, c, "C10/parse/error/reparse", "%v on %s after %v", err, vk.Show(raw), trace)
+			}
+			cm.q, cm.parsed = parsed, true
+			feat["continued-on-the-parsed-message"] = true
+			trace = append(trace, fmt.Sprintf("m%d=parse(build(m%d))", cm.id, cm.id))
 		case "copy":
 			ensureHead(cm)
 			var dst *c10msg
@@ -640,7 +688,7 @@ func c10Property(t *rapid.T) {
 				// an existing message object (possibly built before) is the destination
 				var others []*c10msg
 				for _, o := range msgs {
-					if o != cm {
+					if o != cm && !o.parsed {
 						others = append(others, o)
 					}
 				}
@@ -664,7 +712,7 @@ func c10Property(t *rapid.T) {
 			}
 			feat["copy"] = true
 			trace = append(trace, fmt.Sprintf("m%d.CopyInto(m%d)", cm.id, dst.id))
-			src, cp := cm.q.String(), dst.q.String()
+			src, cp := cm.str(), dst.q.String()
 			if src != cp {
 				vk.Violation(t, c, "C10/copy/serialises-differently/"+featClass(feat), "source %s\ncopy   %s\ntrace %v", vk.Show([]byte(src)), vk.Show([]byte(cp)), trace)
 			}
@@ -689,7 +737,7 @@ func c10Property(t *rapid.T) {
 			ks = append(ks, k)
 		}
 		sort.Strings(ks)
-		c.SampleClass(strings.Join(ks, "+"), map[string]interface{}{"program": sanitizeTrace(trace), "final": vk.Show([]byte(msgs[0].q.String()))})
+		c.SampleClass(strings.Join(ks, "+"), map[string]interface{}{"program": sanitizeTrace(trace), "final": vk.Show([]byte(msgs[0].str()))})
 	} else {
 		c.Class("program-plain")
 	}
@@ -736,8 +784,8 @@ func TestReplay_C10_Fixed(t *testing.T) {
 		cm.m.b[5000] = &mItem{grp: g}
 		dst := quickfix.NewMessage()
 		cm.q.CopyInto(dst)
-		if dst.String() != cm.q.String() {
-			vk.Violation(t, c10(), "C10/copy/serialises-differently/copy-with-group", "source %s copy %s", vk.Show([]byte(cm.q.String())), vk.Show([]byte(dst.String())))
+		if dst.String() != cm.str() {
+			vk.Violation(t, c10(), "C10/copy/serialises-differently/copy-with-group", "source %s copy %s", vk.Show([]byte(cm.str())), vk.Show([]byte(dst.String())))
 		}
 		verifyBuilt(t, &c10msg{q: dst, m: cm.m}, map[string]bool{"copy-with-group": true})
 		// a scalar set on a tag that holds a group replaces the group, members included
